@@ -108,3 +108,21 @@ def c01_unescape_instability(case, observed, expected):
 def c02_attach_binary(case, observed, expected):
     return case.get("n") == "ATTACH" and case.get("k") == "binary" and isinstance(observed, dict) and observed.get("decoded_type") == "URI" \
         and observed.get("value") == "BINARY"
+
+
+# ---------------------------------------------------------------- C12
+def c12_history(case, observed, expected):
+    """KF_History (spec/TzCache.tla), decided by TLC per vector, and the code did what the pinned cache design does"""
+    return bool(case.get("kf")) and bool(case.get("impl_equal"))
+
+
+def c12_dateutil_first_std_onset(case, observed, expected):
+    """zoneinfo provider (dateutil tzical): in a definition with a one-off DAYLIGHT observance (offset change -120 -> 0
+    relative to the later standard time) followed by a yearly pair, the minute before the FIRST yearly STANDARD onset
+    is answered with the standard offset already."""
+    z = case.get("zone") or []
+    if case.get("provider") != "zoneinfo" or len(z) != 4 or [o["name"] for o in z] != ["OLD", "STD", "DST", "DST"]:
+        return False
+    std = z[1]
+    first_onset = std["start"] - std["from"]
+    return case.get("t") == first_onset - 1 and isinstance(observed, dict) and observed.get("off") == std["to"]
